@@ -10,11 +10,13 @@ Open Scope list_scope.
 
 (* ------------------------------------------------------------------------------------------ *)
 (* Reply methods as the macro sees them. *)
-Record rfield := { rf_name : string; rf_ty : string; rf_data : option data_params; rf_payload : bool }.
+(* rf_bad: an attribute on the parameter is itself rejected (unknown argument of `sv::data` / `sv::payload`, ...) *)
+Record rfield := { rf_name : string; rf_ty : string; rf_data : option data_params; rf_payload : bool; rf_bad : bool }.
 
 Definition mk_rfield (a : arg) : rfield :=
   let p := parse_attrs (a_attrs a) in
-  {| rf_name := a_name a; rf_ty := show_ty (a_ty a); rf_data := p_data p; rf_payload := p_payload p |}.
+  {| rf_name := a_name a; rf_ty := show_ty (a_ty a); rf_data := p_data p; rf_payload := p_payload p;
+     rf_bad := match p_diags p with [] => false | _ => true end |}.
 
 Record rmethod := { rm_name : string; rm_on : reply_on; rm_handlers : list string; rm_fields : list rfield }.
 
@@ -41,7 +43,8 @@ Definition pairs_of (m : rmethod) : list (rmethod * string) :=
 Definition reply_id_of (handler : string) : string := upper_snake handler ++ "_REPLY_ID".
 
 Inductive rdiag := RDataNotFirst | RDataNotSuccess | RMissingPayload | RRedundantPayload | RDuplicated
-                 | RMismatchedQuantity | RMismatchedParam | RDataInstantiateRaw | RMismatchedPayloadMarker | RHandlerClash.
+                 | RMismatchedQuantity | RMismatchedParam | RDataInstantiateRaw | RMismatchedPayloadMarker | RHandlerClash
+                 | RBadFieldAttr.
 
 (* ReplyOn::excludes *)
 Definition excludes (a b : reply_on) : bool :=
@@ -84,9 +87,9 @@ Definition is_some {A} (o : option A) : bool := match o with Some _ => true | No
 
 (* diagnostics of the attributes on the fields themselves (DataFieldParams::new) *)
 Definition field_attr_diags (m : rmethod) : list rdiag :=
-  flat_map (fun f => match rf_data f with
-                     | Some d => if dp_inst d && dp_raw d then [RDataInstantiateRaw] else []
-                     | None => [] end) (rm_fields m).
+  flat_map (fun f => (match rf_data f with
+                      | Some d => if dp_inst d && dp_raw d then [RDataInstantiateRaw] else []
+                      | None => [] end) ++ (if rf_bad f then [RBadFieldAttr] else [])) (rm_fields m).
 
 (* ReplyData::new *)
 Definition rd_new (m : rmethod) (hid : string) : reply_data * list rdiag :=
